@@ -11,6 +11,8 @@ envelope peak within half a sample otherwise).
 """
 import numpy as np
 
+import fixtures
+
 from common import b2f, f2b, fl
 
 
@@ -188,6 +190,7 @@ def check_tftt(ctx):
 
 
 def run(ctx):
+    fixtures.check_time_objects(ctx)
     ctx.rule = ("tonebursts with 1-7 cycles, dt in {1e-8, 2e-8, 4e-8, 2^-24, 1e-7}, padding, wrap, analytic; toneburst2 layouts; random real signals of length 1-23 "
                 "(odd/even) for the Hilbert transform and whole-sample shifts in [-2n, 2n]; transfer functions single/multi-frequency, 1-3 scatterers x 1-3 timetraces, "
                 "non-zero time origins, dt in {0.1, 1e-8, 2^-24, 4e-8}, delays fractional, exactly on output samples, and one ulp either side; distinct = distinct input; non-trivial = all")
